@@ -65,6 +65,14 @@ import BGV
 #print axioms BGV.C06_symm
 #print axioms BGV.C06_history_independent
 #print axioms BGV.C06_distinguishes
+#print axioms BGV.C06_und_eq_iff_same_graph
+#print axioms BGV.C06_und_history_independent
+#print axioms BGV.C06_und_refl
+#print axioms BGV.C06_und_symm
+#print axioms BGV.C06_weighted_dir
+#print axioms BGV.C06_weighted_und
+#print axioms BGV.C06_multi_dir
+#print axioms BGV.C06_multi_und
 
 -- C07
 #print axioms BGV.C07_dAddEdge
